@@ -1,20 +1,22 @@
 (* C14 — Serialization is safe under concurrency; pooled coders leak no state.
    Only statements, each closed by [exact lemma], with Print Assumptions, plus Examples.
 
-   Full-strength targets (DESIGN 6, C14):
-     C14_reset_is_fresh        after Free's reset a coder behaves like a new one for EVERY later use
-     C14_no_alias              every string/[]byte reachable from a decoded value is Owned
-     C14_registry_linearizable in every interleaving each call writes what it writes alone
-   On the faithful model ([as_found]) the first fails for encoders (off and Writer survive) and for
-   decoders (a caller's slice survives as read buffer), the third fails for the unlocked encoder
-   registry with fresh types; each failure is a [_refuted] theorem with a witness and a [_partial]
-   theorem under the exact guard.  The generic theorems are stated for every [variant] (the
-   repairs of hooks/c14-fix-*.patch are flags of the model); the [_fixed] theorems say that with
-   the repairs the guards disappear.
+   PART I  — WHAT HOLDS NOW.  The headline theorems are stated for the tree as repaired
+             ([all_fixed]: /repo 717e8be, efd3d7f, e063fce, d41e43d; the struct-encoder side of the
+             registry takes its lock, i.e. the [locked] LTS).  No guards.
+               C14_reset_is_fresh_encoder / _decoder   a released coder behaves like a new one for EVERY later use
+               C14_pool_encoder_sessions / _decoder_   every history of pooled uses, arbitrary operations, any pool choice
+               C14_no_alias                            every string/[]byte reachable from a decoded value is Owned
+               C14_registry_linearizable               in every interleaving each call writes what it writes alone
+             checks/C14.py runs the model in this variant and reports a VIOLATION when the tree under
+             test lacks one of the repairs.
+   PART II — HISTORICAL.  The tree as found ([as_found], unlocked registry) violated the first and the
+             last; the witnesses and the guarded (partial) statements about THAT variant are kept as
+             labelled Examples so that a revert is recognised for what it is.
 
    Limits: the registry LTS has sequentially consistent atomic steps (one sync.Map method, one
-   read/write of the fields word); data-race freedom in the sense of the Go memory model is
-   not expressible in it. *)
+   read/write of the fields word, one RWMutex operation); data-race freedom in the sense of the Go
+   memory model is not expressible in it. *)
 From Coq Require Import List NArith ZArith Bool Strings.Byte Arith String.
 From HV Require Import Lib.Dec Model.Pool Model.Registry Proofs.PoolProofs Proofs.RegistryProofs.
 Import ListNotations.
@@ -22,208 +24,71 @@ Local Open Scope string_scope.
 Local Open Scope nat_scope.
 
 (* ===================================================================================== *)
-(* A. state hygiene of pooled coders (generic in the serializer)                         *)
+(* PART I.A  state hygiene of pooled coders (generic in the serializer), repaired tree    *)
 (* ===================================================================================== *)
 
-(* FreeEncoder = Simple(false).ResetBuffer() clears buffer, error, mode, reference table and
-   class table -- and leaves exactly two fields as they were: off and Writer *)
-Theorem C14_free_encoder_keeps_only_off_and_writer :
-  forall (RT CT ER WR : Type) (rt0 : RT) (ct0 : CT) (vr : variant) (s : enc RT CT ER WR),
-  free_enc RT CT ER WR rt0 ct0 vr s =
-  {| e_buf := []; e_off := if v_resetbuffer_off vr then 0 else e_off s; e_simple := false; e_refer := rt0;
-     e_cls := ct0; e_writer := if v_free_writer vr then None else e_writer s; e_err := None |}.
-Proof. exact free_enc_char. Qed.
-Print Assumptions C14_free_encoder_keeps_only_off_and_writer.
+(* FreeEncoder = Writer = nil; Simple(false).ResetBuffer() turns EVERY encoder state into new(Encoder):
+   buffer, flush offset, mode, reference table, class table, writer, error *)
+Theorem C14_free_encoder_is_new :
+  forall (RT CT ER WR : Type) (rt0 : RT) (ct0 : CT) (s : enc RT CT ER WR),
+  free_enc RT CT ER WR rt0 ct0 all_fixed s = new_enc RT CT ER WR rt0 ct0.
+Proof. exact now_free_enc_is_new. Qed.
+Print Assumptions C14_free_encoder_is_new.
 
-(* guard: nothing was ever flushed to a writer and no writer is attached *)
-Theorem C14_reset_is_fresh_encoder_partial :
-  forall (V RT CT ER WR : Type) (rt0 : RT) (ct0 : CT) (vr : variant)
-         (ser : bool -> bool -> RT -> CT -> V -> ser_res RT CT ER) (s : enc RT CT ER WR),
-  e_off s = 0 /\ e_writer s = None ->
-  enc_fresh_equiv V RT CT ER WR rt0 ct0 vr ser (free_enc RT CT ER WR rt0 ct0 vr s).
-Proof. exact free_enc_fresh_partial. Qed.
-Print Assumptions C14_reset_is_fresh_encoder_partial.
+Theorem C14_reset_is_fresh_encoder :
+  forall (V RT CT ER WR : Type) (rt0 : RT) (ct0 : CT) (ser : bool -> bool -> RT -> CT -> V -> ser_res RT CT ER)
+         (s : enc RT CT ER WR),
+  enc_fresh_equiv V RT CT ER WR rt0 ct0 all_fixed ser (free_enc RT CT ER WR rt0 ct0 all_fixed s).
+Proof. exact now_free_enc_fresh. Qed.
+Print Assumptions C14_reset_is_fresh_encoder.
 
-(* with hooks/c14-fix-encoder-reset.patch (ResetBuffer resets off, FreeEncoder detaches the Writer)
-   the full-strength statement holds: EVERY released encoder is like a new one *)
-Theorem C14_reset_is_fresh_encoder_fixed :
-  forall (V RT CT ER WR : Type) (rt0 : RT) (ct0 : CT) (vr : variant)
-         (ser : bool -> bool -> RT -> CT -> V -> ser_res RT CT ER) (s : enc RT CT ER WR),
-  v_resetbuffer_off vr = true -> v_free_writer vr = true ->
-  enc_fresh_equiv V RT CT ER WR rt0 ct0 vr ser (free_enc RT CT ER WR rt0 ct0 vr s).
-Proof. exact free_enc_fresh_fixed. Qed.
-Print Assumptions C14_reset_is_fresh_encoder_fixed.
-
-(* reachable through the pool: io.GetEncoder(); enc.Writer = w; Encode; io.FreeEncoder(enc) (or
-   FreeEncoder(NewEncoder(w))): the released encoder is NOT like a new one *)
-Theorem C14_reset_is_fresh_encoder_refuted :
-  ~ enc_fresh_equiv val crefer ccls cerr N crefer0 ccls0 as_found cser
-      (c_free_enc (fst (c_enc_run c_new_enc hist_writer))).
-Proof. exact pool_writer_refuted. Qed.
-Print Assumptions C14_reset_is_fresh_encoder_refuted.
-
-(* what the next user observes: Marshal returns the right bytes, but everything after the stale
-   offset is also written to the previous user's writer *)
-Theorem C14_pooled_writer_leak :
-  snd (c_enc_run (c_free_enc (fst (c_enc_run c_new_enc hist_writer)))
-                 [ESimple true; EEncode (VStr (bs "secret-of-next-user")); EBytes]) =
-  [OUnit; OFlushed None (Some (1%N, bs "t-of-next-user""")); OBytes (bs "s19""secret-of-next-user""")].
-Proof. exact pool_writer_leak. Qed.
-Print Assumptions C14_pooled_writer_leak.
-
-(* the offset alone is enough (writer detached before Free) *)
-Theorem C14_reset_is_fresh_encoder_refuted_off :
-  ~ enc_fresh_equiv val crefer ccls cerr N crefer0 ccls0 as_found cser
-      (c_free_enc (fst (c_enc_run c_new_enc hist_off))).
-Proof. exact pool_off_refuted. Qed.
-Print Assumptions C14_reset_is_fresh_encoder_refuted_off.
-
-(* public Reset API without the pool (the probed history): the writer receives a, then one
-   stray byte of b *)
-Theorem C14_resetbuffer_refuted :
-  snd (c_enc_run (c_new_encoder (Some 1%N))
-         [EEncode (VStr (bs "hello")); EResetBuffer; EEncode (VStr (bs "world!"))]) =
-  [OFlushed None (Some (1%N, bs "s5""hello""")); OUnit; OFlushed None (Some (1%N, bs """"))].
-Proof. exact resetbuffer_stray_byte. Qed.
-Print Assumptions C14_resetbuffer_refuted.
-
-(* the library's own uses of pooled encoders (Formatter.Marshal, the rpc codecs: everything
-   except assigning Writer), over ALL histories of uses and ALL choices of the pool: every use
+(* ALL histories of pooled uses, ARBITRARY operations of the public API in each use (modes, failing
+   values, Reset, ResetBuffer, the exported Writer field), ALL choices of the pool: every use
    observes exactly what it observes on a new encoder, and the pool stays all-new *)
 Theorem C14_pool_encoder_sessions :
-  forall (V RT CT ER WR : Type) (rt0 : RT) (ct0 : CT) (vr : variant)
-         (ser : bool -> bool -> RT -> CT -> V -> ser_res RT CT ER)
+  forall (V RT CT ER WR : Type) (rt0 : RT) (ct0 : CT) (ser : bool -> bool -> RT -> CT -> V -> ser_res RT CT ER)
          (l : list (esession V WR)) (p : epool RT CT ER WR),
   Forall (fun e => e = new_enc RT CT ER WR rt0 ct0) p ->
-  Forall (fun ss => forallb lib_eop (es_ops ss) = true) l ->
-  Forall (fun e => e = new_enc RT CT ER WR rt0 ct0) (fst (esessions_run V RT CT ER WR rt0 ct0 vr ser p l)) /\
-  snd (esessions_run V RT CT ER WR rt0 ct0 vr ser p l) =
-    map (fun ss => snd (enc_run V RT CT ER WR rt0 ct0 vr ser (new_enc RT CT ER WR rt0 ct0) (es_ops ss))) l.
-Proof. exact lib_sessions_fresh. Qed.
+  Forall (fun e => e = new_enc RT CT ER WR rt0 ct0) (fst (esessions_run V RT CT ER WR rt0 ct0 all_fixed ser p l)) /\
+  snd (esessions_run V RT CT ER WR rt0 ct0 all_fixed ser p l) =
+    map (fun ss => snd (enc_run V RT CT ER WR rt0 ct0 all_fixed ser (new_enc RT CT ER WR rt0 ct0) (es_ops ss))) l.
+Proof. exact now_esessions_fresh. Qed.
 Print Assumptions C14_pool_encoder_sessions.
 
-(* with the repair: ARBITRARY operations in every use, the Writer field included *)
-Theorem C14_pool_encoder_sessions_fixed :
-  forall (V RT CT ER WR : Type) (rt0 : RT) (ct0 : CT) (vr : variant)
-         (ser : bool -> bool -> RT -> CT -> V -> ser_res RT CT ER),
-  v_resetbuffer_off vr = true -> v_free_writer vr = true ->
-  forall (l : list (esession V WR)) (p : epool RT CT ER WR),
-  Forall (fun e => e = new_enc RT CT ER WR rt0 ct0) p ->
-  Forall (fun e => e = new_enc RT CT ER WR rt0 ct0) (fst (esessions_run V RT CT ER WR rt0 ct0 vr ser p l)) /\
-  snd (esessions_run V RT CT ER WR rt0 ct0 vr ser p l) =
-    map (fun ss => snd (enc_run V RT CT ER WR rt0 ct0 vr ser (new_enc RT CT ER WR rt0 ct0) (es_ops ss))) l.
-Proof. exact all_sessions_fresh_fixed. Qed.
-Print Assumptions C14_pool_encoder_sessions_fixed.
-
-(* decoders: FreeDecoder = Simple(false).ResetBuffer() clears input, mode, reference list, class
-   list, error and all five options -- and keeps exactly one thing: dec.buf when a reader is
-   attached, WHOEVER that buffer belongs to *)
-Theorem C14_free_decoder_keeps_only_buffer :
-  forall (DR DC ER : Type) (dr0 : DR) (dc0 : DC) (vr : variant) (s : dec DR DC ER),
-  free_dec DR DC ER dr0 dc0 vr s =
-  {| d_in := []; d_buf := if d_from_reader s then d_buf s else BufNil; d_from_reader := false;
-     d_simple := false; d_refer := dr0; d_cls := dc0; d_err := None; d_opts := opts0 |}.
-Proof. exact free_dec_char. Qed.
-Print Assumptions C14_free_decoder_keeps_only_buffer.
-
-(* guard: the buffer kept is not a slice of a caller *)
-Theorem C14_reset_is_fresh_decoder_partial :
-  forall (DT DV DR DC ER : Type) (dr0 : DR) (dc0 : DC) (vr : variant)
+(* decoders: whatever constructor made the decoder (the pool, NewDecoder, NewDecoderFromReader) and
+   whatever it went through (any operations: modes, options, failing inputs, ResetBytes and
+   ResetReader in any order), FreeDecoder makes it observationally new: input, read buffer, mode,
+   reference list, class list, sticky error, the five options *)
+Theorem C14_reset_is_fresh_decoder :
+  forall (DT DV DR DC ER : Type) (dr0 : DR) (dc0 : DC)
          (des : bool -> dopts -> DR -> DC -> option ER -> list byte -> DT -> des_res DV DR DC ER)
-         (s : dec DR DC ER),
-  (d_from_reader s = true -> norm_buf (d_buf s) = BufNil) ->
-  dec_fresh_equiv DT DV DR DC ER dr0 dc0 vr des (free_dec DR DC ER dr0 dc0 vr s).
-Proof. exact free_dec_fresh_partial. Qed.
-Print Assumptions C14_reset_is_fresh_decoder_partial.
+         (s0 : dec DR DC ER) (ops : list (dop DT)),
+  made_by_constructor dr0 dc0 s0 ->
+  dec_fresh_equiv DT DV DR DC ER dr0 dc0 all_fixed des
+    (free_dec DR DC ER dr0 dc0 all_fixed (fst (dec_run DT DV DR DC ER dr0 dc0 all_fixed des s0 ops))).
+Proof. exact now_free_dec_fresh. Qed.
+Print Assumptions C14_reset_is_fresh_decoder.
 
-(* reachable through the pool: GetDecoder().ResetBytes(mine) ... ResetReader(r) ... FreeDecoder: the pool
-   now holds a decoder whose read buffer is the first user's slice *)
-Theorem C14_reset_is_fresh_decoder_refuted :
-  ~ dec_fresh_equiv unit dval drefs unit cerr [] tt as_found cdes (c_free_dec (fst (c_dec_run c_new_dec dhist_buf))).
-Proof. exact pool_dec_buffer_refuted. Qed.
-Print Assumptions C14_reset_is_fresh_decoder_refuted.
-
-(* what happens next: the NEXT user's input is read into the first user's slice (clobbers = true) ... *)
-Theorem C14_pooled_decoder_buffer_leak :
-  snd (c_dec_run (c_free_dec (fst (c_dec_run c_new_dec dhist_buf)))
-                 [DResetReader (bs "s19""secret-of-next-user"""); DDecode tt]) =
-  [ODUnit; ODecoded (DStr (bs "secret-of-next-user")) None true].
-Proof. exact pool_dec_buffer_leak. Qed.
-Print Assumptions C14_pooled_decoder_buffer_leak.
-
-(* ... and when that slice has length 0 the next reader-fed use never returns (loadMore spins) *)
-Theorem C14_pooled_decoder_hang :
-  snd (c_dec_run (c_free_dec (fst (c_dec_run c_new_dec dhist_hang))) [DResetReader (bs "i7;"); DDecode tt]) =
-  [ODUnit; ODHang].
-Proof. exact pool_dec_hang. Qed.
-Print Assumptions C14_pooled_decoder_hang.
-
-(* all histories of pooled decoder uses with ARBITRARY public operations inside each use, provided
-   each use takes its input from one kind of source (never ResetBytes, or never ResetReader: what
-   Formatter.Unmarshal, UnmarshalFromReader and the rpc codecs do), and all choices of the pool *)
 Theorem C14_pool_decoder_sessions :
-  forall (DT DV DR DC ER : Type) (dr0 : DR) (dc0 : DC) (vr : variant)
+  forall (DT DV DR DC ER : Type) (dr0 : DR) (dc0 : DC)
          (des : bool -> dopts -> DR -> DC -> option ER -> list byte -> DT -> des_res DV DR DC ER)
          (l : list (dsession DT)) (p : dpool DR DC ER),
   Forall (fun e => dec_same e (new_dec DR DC ER dr0 dc0)) p ->
-  Forall (fun ss => one_source (dss_ops ss) = true) l ->
-  Forall (fun e => dec_same e (new_dec DR DC ER dr0 dc0)) (fst (dsessions_run DT DV DR DC ER dr0 dc0 vr des p l)) /\
-  snd (dsessions_run DT DV DR DC ER dr0 dc0 vr des p l) =
-    map (fun ss => snd (dec_run DT DV DR DC ER dr0 dc0 vr des (new_dec DR DC ER dr0 dc0) (dss_ops ss))) l.
-Proof. exact sessions_fresh. Qed.
+  Forall (fun e => dec_same e (new_dec DR DC ER dr0 dc0)) (fst (dsessions_run DT DV DR DC ER dr0 dc0 all_fixed des p l)) /\
+  snd (dsessions_run DT DV DR DC ER dr0 dc0 all_fixed des p l) =
+    map (fun ss => snd (dec_run DT DV DR DC ER dr0 dc0 all_fixed des (new_dec DR DC ER dr0 dc0) (dss_ops ss))) l.
+Proof. exact now_dsessions_fresh. Qed.
 Print Assumptions C14_pool_decoder_sessions.
 
-(* with hooks/c14-fix-decoder-resetreader.patch: ARBITRARY operations in every use *)
-Theorem C14_pool_decoder_sessions_fixed :
-  forall (DT DV DR DC ER : Type) (dr0 : DR) (dc0 : DC) (vr : variant)
-         (des : bool -> dopts -> DR -> DC -> option ER -> list byte -> DT -> des_res DV DR DC ER),
-  v_resetreader_drops vr = true ->
-  forall (l : list (dsession DT)) (p : dpool DR DC ER),
-  Forall (fun e => dec_same e (new_dec DR DC ER dr0 dc0)) p ->
-  Forall (fun e => dec_same e (new_dec DR DC ER dr0 dc0)) (fst (dsessions_run DT DV DR DC ER dr0 dc0 vr des p l)) /\
-  snd (dsessions_run DT DV DR DC ER dr0 dc0 vr des p l) =
-    map (fun ss => snd (dec_run DT DV DR DC ER dr0 dc0 vr des (new_dec DR DC ER dr0 dc0) (dss_ops ss))) l.
-Proof. exact all_dsessions_fresh_fixed. Qed.
-Print Assumptions C14_pool_decoder_sessions_fixed.
-
-(* outside the pool: the mode switch Simple(true) of a decoder used in reference mode keeps the
-   reference list, and 'r' reads it in simple mode too: a reused decoder returns an object of
-   the previous input where NewDecoder would panic (index out of range) *)
-Theorem C14_decoder_simple_true_refuted :
-  snd (c_dec_run (fst (c_dec_run (c_new_decoder dinput1) dhist)) dnext) =
-    [ODUnit; ODUnit; ODecoded (DStr (bs "hello")) None false] /\
-  snd (c_dec_run (c_new_decoder []) dnext) = [ODUnit; ODUnit; ODecoded DPanic None false].
-Proof. exact dec_simple_true_refuted. Qed.
-Print Assumptions C14_decoder_simple_true_refuted.
-
-Theorem C14_decoder_simple_true_partial :
-  forall (DT DV DR DC ER : Type) (dr0 : DR) (dc0 : DC) (vr : variant)
-         (des : bool -> dopts -> DR -> DC -> option ER -> list byte -> DT -> des_res DV DR DC ER)
-         (s : dec DR DC ER) (input : list byte),
-  d_refer s = dr0 -> d_err s = None -> d_opts s = opts0 ->
-  dec_same (fst (dec_step DT DV DR DC ER dr0 dc0 vr des (dset_simple DR DC ER dr0 dc0 vr true s) (DResetBytes input)))
-           (new_decoder DR DC ER dr0 dc0 input).
-Proof. exact dsimple_true_partial. Qed.
-Print Assumptions C14_decoder_simple_true_partial.
-
-(* with hooks/c14-fix-decoder-simple-reset.patch every mode switch empties both tables *)
-Theorem C14_decoder_mode_switch_fixed :
-  forall (DR DC ER : Type) (dr0 : DR) (dc0 : DC) (vr : variant) (b : bool) (s : dec DR DC ER),
-  v_reset_refer_always vr = true ->
-  d_refer (dset_simple DR DC ER dr0 dc0 vr b s) = dr0 /\ d_cls (dset_simple DR DC ER dr0 dc0 vr b s) = dc0.
-Proof. exact dsimple_resets_fixed. Qed.
-Print Assumptions C14_decoder_mode_switch_fixed.
-
-(* ... which is why the rpc codecs are fine: they call Reset() in reference mode first *)
-Theorem C14_codec_reset_then_simple :
-  forall (DR DC ER : Type) (dr0 : DR) (dc0 : DC) (vr : variant) (s : dec DR DC ER),
-  d_simple s = false ->
-  d_refer (dset_simple DR DC ER dr0 dc0 vr true (dreset DR DC ER dr0 dc0 vr s)) = dr0.
-Proof. exact dreset_then_simple_true. Qed.
-Print Assumptions C14_codec_reset_then_simple.
+(* user-held decoders too: every mode switch (Simple(b), either b) empties both tables *)
+Theorem C14_decoder_mode_switch_resets :
+  forall (DR DC ER : Type) (dr0 : DR) (dc0 : DC) (b : bool) (s : dec DR DC ER),
+  d_refer (dset_simple DR DC ER dr0 dc0 all_fixed b s) = dr0 /\ d_cls (dset_simple DR DC ER dr0 dc0 all_fixed b s) = dc0.
+Proof. exact now_mode_switch_resets. Qed.
+Print Assumptions C14_decoder_mode_switch_resets.
 
 (* ===================================================================================== *)
-(* B. no aliasing                                                                        *)
+(* PART I.B  no aliasing                                                                  *)
 (* ===================================================================================== *)
 (* For every destination type, every token tree, both modes, every way the reads of the
    io.Reader split the input (every assignment of fast/slow path to each buffer primitive), and
@@ -248,153 +113,212 @@ Proof. exact safe_api_is_owned. Qed.
 Print Assumptions C14_safe_api_owned.
 
 (* ===================================================================================== *)
-(* C. the lazy registries                                                                *)
+(* PART I.C  the lazy registries: builder holds the write lock from before the publication *)
+(*           until fields are assigned, Write/decodeField read fields under the read lock  *)
+(*           (decoder side always; encoder side since efd3d7f)                             *)
 (* ===================================================================================== *)
-(* typing invariant over all schedules, locked or not: handlers always point at coders of the
-   right type (no run ever gets Stuck) *)
+(* every type environment (nested, self-referential, mutually recursive types), any number of
+   goroutines, fresh or warm types, EVERY schedule: each call writes what it writes alone *)
+Theorem C14_registry_linearizable :
+  forall te vs sched st,
+  wf_tenv te -> Forall (wf_val te) vs -> run te true (init vs) sched = Some st ->
+  outs_ok vs (threads st) /\ (finished st = true -> map out (threads st) = map seq_out vs).
+Proof. exact locked_linearizable. Qed.
+Print Assumptions C14_registry_linearizable.
+
+(* ... and the lock never deadlocks: while some call is unfinished some goroutine can move *)
+Theorem C14_registry_deadlock_free :
+  forall te vs sched st,
+  wf_tenv te -> Forall (wf_val te) vs -> run te true (init vs) sched = Some st ->
+  finished st = false -> exists i, step te true st i <> None.
+Proof. exact locked_deadlock_free. Qed.
+Print Assumptions C14_registry_deadlock_free.
+
+(* handlers always point at coders of the right type (no run ever gets Stuck) *)
 Theorem C14_registry_typing :
   forall te locked vs sched st,
   wf_tenv te -> Forall (wf_val te) vs -> run te locked (init vs) sched = Some st -> state_ok te st.
 Proof. exact reachable_state_ok. Qed.
 Print Assumptions C14_registry_typing.
 
-(* encoder side as it is (no lock), fresh types: NOT linearizable.  Shape 1: another goroutine
-   builds an enclosing type while the coder is half built *)
-Theorem C14_registry_linearizable_refuted :
-  exists st, run te_enclosing false (init vs_enclosing) sched_enclosing = Some st /\
-             finished st = true /\
-             map out (threads st) = [[Full 0]; [Full 1; Half 0; Half 0]] /\
-             map out (threads st) <> map seq_out vs_enclosing.
-Proof. exact refuted_enclosing. Qed.
-Print Assumptions C14_registry_linearizable_refuted.
-
-(* Shape 2: mutually recursive types; the half-built coder is reached through a COMPLETE coder
-   found in structEncoderMap *)
-Theorem C14_registry_linearizable_refuted_mutual :
-  exists st, run te_mutual false (init vs_mutual) sched_mutual = Some st /\
-             finished st = true /\
-             map out (threads st) = [[Full 0; Full 1]; [Full 1; Half 0]] /\
-             map out (threads st) <> map seq_out vs_mutual.
-Proof. exact refuted_mutual. Qed.
-Print Assumptions C14_registry_linearizable_refuted_mutual.
-
-(* Shape 3: two goroutines build the SAME self-recursive type at once; the recursion handler of one is
-   the other's placeholder.  The inner value is written with its class already defined and ZERO
-   fields: well-formed output, fields silently dropped (found by the first-use race search) *)
-Theorem C14_registry_linearizable_refuted_same_type :
-  exists st, run te_same false (init vs_same) sched_same = Some st /\
-             finished st = true /\
-             map out (threads st) = [[Full 0; Half 0]; [Full 0; Full 0]] /\
-             map out (threads st) <> map seq_out vs_same.
-Proof. exact refuted_same. Qed.
-Print Assumptions C14_registry_linearizable_refuted_same_type.
-
-(* partial 1, warm types: when every type has a complete coder and none is half built, every
-   interleaving of any number of calls writes what each call writes alone *)
-Theorem C14_registry_linearizable_partial_warm :
-  forall te s0 vs sched st,
-  wf_tenv te -> shared_ok te s0 -> warm te s0 -> Forall (wf_val te) vs ->
-  run te false (mk_state s0 (map marshal vs)) sched = Some st ->
-  outs_ok vs (threads st) /\ (finished st = true -> map out (threads st) = map seq_out vs).
-Proof. exact warm_linearizable. Qed.
-Print Assumptions C14_registry_linearizable_partial_warm.
-
-(* partial 2, fresh types, first uses serialised: a goroutine moves only while no OTHER goroutine
-   has a published-but-unassigned coder (e.g. io.Register at start-up) *)
-Theorem C14_registry_linearizable_partial_isolated :
-  forall te vs sched st,
-  wf_tenv te -> Forall (wf_val te) vs -> isolated te (init vs) sched = true ->
-  run te false (init vs) sched = Some st ->
-  outs_ok vs (threads st) /\ (finished st = true -> map out (threads st) = map seq_out vs).
-Proof. exact isolated_linearizable. Qed.
-Print Assumptions C14_registry_linearizable_partial_isolated.
-
-(* why publishing early is safe for recursion on the SAME goroutine, for every type environment
-   (self-referential, mutually recursive, nested): the handler of a recursive field only holds
-   the pointer; fields is read by Write, which runs after the goroutine has left every
-   newNamedStructEncoder it entered *)
-Theorem C14_same_goroutine_recursion_safe :
-  forall te v sched st,
-  wf_tenv te -> wf_val te v -> run te false (init [v]) sched = Some st -> finished st = true ->
-  map out (threads st) = [seq_out v].
-Proof. exact sequential_recursion_safe. Qed.
-Print Assumptions C14_same_goroutine_recursion_safe.
-
-(* decoder side (newNamedStructDecoder holds the write lock across publication, decodeField reads
-   under RLock) and the encoder with hooks/c14-fix-struct-encoder-publish.patch: linearizable in
-   EVERY schedule, cold or warm ... *)
-Theorem C14_registry_locked_linearizable :
-  forall te vs sched st,
-  wf_tenv te -> Forall (wf_val te) vs -> run te true (init vs) sched = Some st ->
-  outs_ok vs (threads st) /\ (finished st = true -> map out (threads st) = map seq_out vs).
-Proof. exact locked_linearizable. Qed.
-Print Assumptions C14_registry_locked_linearizable.
-
-(* ... and never deadlocks: while some call is unfinished some goroutine can move *)
-Theorem C14_registry_locked_deadlock_free :
-  forall te vs sched st,
-  wf_tenv te -> Forall (wf_val te) vs -> run te true (init vs) sched = Some st ->
-  finished st = false -> exists i, step te true st i <> None.
-Proof. exact locked_deadlock_free. Qed.
-Print Assumptions C14_registry_locked_deadlock_free.
-
 (* ===================================================================================== *)
-(* Examples: hypotheses are satisfiable, guards exclude exactly the findings              *)
+(* PART I.D  non-vacuity, and the old failing histories on the repaired model             *)
 (* ===================================================================================== *)
-(* a history of library uses (two modes, a failing value, explicit Reset) meets the guard of
-   C14_pool_encoder_sessions; its observations, computed *)
-Example ex_sessions_guard : Forall (fun ss => forallb lib_eop (es_ops ss) = true) sample_sessions.
-Proof. exact sample_sessions_lib. Qed.
-Example ex_sessions_obs :
-  snd (c_esessions_run [] sample_sessions) =
-  [ [OUnit; OFlushed None None; OBytes (bs "a3{s2""ab""r1;c2""CA""1{s1""a""}o0{5}}")];
-    [OUnit; OFlushed (Some EUnsupported) None; OErr (Some EUnsupported); OBytes (bs "n")];
-    [OUnit; OFlushed None None; OUnit; OFlushed None None; OBytes (bs "s2""ab""c2""CA""1{s1""a""}o0{n}")] ].
-Proof. exact sample_sessions_obs. Qed.
-(* a history of decoder uses (modes, options, a panicking and a failing input, a reader) meets the
-   guard of C14_pool_decoder_sessions; its observations, computed *)
-Example ex_dsessions_guard : Forall (fun ss => one_source (dss_ops ss) = true) sample_dsessions.
-Proof. exact sample_dsessions_one_source. Qed.
-Example ex_dsessions_obs :
-  snd (c_dsessions_run [] sample_dsessions) =
-  [ [ODUnit; ODUnit; ODUnit; ODecoded (DList [DStr (bs "hello"); DStr (bs "hello")]) None false];
-    [ODOpts opts0; ODUnit; ODecoded DPanic None false; ODErr None];
-    [ODUnit; ODUnit; ODecoded (DLong 0 5) None false; ODecoded DNil (Some EInvalidTag) false; ODErr (Some EInvalidTag)] ].
-Proof. exact sample_dsessions_obs. Qed.
-(* the history of the decoder refutation violates the guard of the partial theorem *)
-Example ex_guard_buf :
-  d_from_reader (fst (c_dec_run c_new_dec dhist_buf)) = true /\
-  d_buf (fst (c_dec_run c_new_dec dhist_buf)) = BufUser 20.
-Proof. exact dhist_buf_not_guarded. Qed.
-(* the refuting histories violate the guard of the partial theorem, one conjunct each *)
-Example ex_guard_writer : e_writer (fst (c_enc_run c_new_enc hist_writer)) = Some 1%N.
-Proof. exact hist_writer_not_clean. Qed.
-Example ex_guard_off : e_off (fst (c_enc_run c_new_enc hist_off)) = 9.
-Proof. exact hist_off_not_clean. Qed.
-(* ownership: all primitives on the fast (view) path, reference mode, nested value *)
-Example ex_no_alias :
-  or_val (own_decode (all_fast false) 10 (TStruct [TString; TBytes; TIface; TSlice TString])
-            (WObj [WStr; WStr; WList [WStr; WBytes; WChar]; WList [WStr; WRefTo 0]]) [] 0) =
-  ONode [OLeaf Owned; OLeaf Owned; ONode [OLeaf Owned; OLeaf Owned; OLeaf Owned]; ONode [OLeaf Owned; OLeaf Owned]].
-Proof. exact own_example. Qed.
-(* the witnesses of the registry refutations are well-formed inputs *)
+Example now_resetbuffer :   (* NewEncoder(w); Encode(a); ResetBuffer(); Encode(b): w receives a, then ALL of b *)
+  snd (enc_run val crefer ccls cerr N crefer0 ccls0 all_fixed cser (c_new_encoder (Some 1%N))
+         [EEncode (VStr (bs "hello")); EResetBuffer; EEncode (VStr (bs "world!"))]) =
+  [OFlushed None (Some (1%N, bs "s5""hello""")); OUnit; OFlushed None (Some (1%N, bs "s6""world!"""))].
+Proof. exact now_resetbuffer_delivers_all. Qed.
+Example now_pool_writer :   (* a Writer left on a released encoder is gone for the next user *)
+  snd (enc_run val crefer ccls cerr N crefer0 ccls0 all_fixed cser
+         (cv_free_enc all_fixed (fst (enc_run val crefer ccls cerr N crefer0 ccls0 all_fixed cser c_new_enc hist_writer)))
+         [ESimple true; EEncode (VStr (bs "secret-of-next-user")); EBytes]) =
+  [OUnit; OFlushed None None; OBytes (bs "s19""secret-of-next-user""")].
+Proof. exact now_pool_writer_gone. Qed.
+Example now_pool_decoder_buffer :   (* ResetBytes(mine); ResetReader(r); FreeDecoder: the next user does not touch mine *)
+  snd (dec_run unit dval drefs unit cerr [] tt all_fixed cdes
+         (cv_free_dec all_fixed (fst (dec_run unit dval drefs unit cerr [] tt all_fixed cdes c_new_dec dhist_buf)))
+         [DResetReader (bs "s19""secret-of-next-user"""); DDecode tt]) =
+  [ODUnit; ODecoded (DStr (bs "secret-of-next-user")) None false].
+Proof. exact now_pool_dec_buffer_clean. Qed.
+Example now_pool_decoder_no_hang :
+  snd (dec_run unit dval drefs unit cerr [] tt all_fixed cdes
+         (cv_free_dec all_fixed (fst (dec_run unit dval drefs unit cerr [] tt all_fixed cdes c_new_dec dhist_hang)))
+         [DResetReader (bs "i7;"); DDecode tt]) =
+  [ODUnit; ODecoded (DInt 7) None false].
+Proof. exact now_pool_dec_no_hang. Qed.
+Example now_simple_true :   (* a reused decoder switched to simple mode answers 'r1;' like NewDecoder does *)
+  snd (dec_run unit dval drefs unit cerr [] tt all_fixed cdes
+         (fst (dec_run unit dval drefs unit cerr [] tt all_fixed cdes (c_new_decoder dinput1) dhist)) dnext) =
+  [ODUnit; ODUnit; ODecoded DPanic None false].
+Proof. exact now_simple_true_is_clean. Qed.
+(* the three schedules that broke the unlocked registry: with the lock the fatal step is not
+   enabled (the reader waits), and once the builder has assigned the fields everybody is right *)
+Example now_enclosing_blocked : run te_enclosing true (init vs_enclosing) sched_enclosing = None.
+Proof. exact locked_blocks_enclosing. Qed.
+Example now_mutual_blocked : run te_mutual true (init vs_mutual) sched_mutual = None.
+Proof. exact locked_blocks_mutual. Qed.
+Example now_same_blocked : run te_same true (init vs_same) sched_same = None.
+Proof. exact locked_blocks_same. Qed.
+Example now_enclosing_completes :
+  exists st, run te_enclosing true (init vs_enclosing) ([0; 0] ++ repeat 1 8 ++ repeat 0 4 ++ repeat 1 2) = Some st /\
+             finished st = true /\ map out (threads st) = map seq_out vs_enclosing.
+Proof. exact locked_enclosing_completes. Qed.
+(* the inputs of these examples are well-formed (hypotheses of C14_registry_linearizable) *)
 Example ex_wf_enclosing : wf_tenv te_enclosing /\ Forall (wf_val te_enclosing) vs_enclosing.
 Proof. exact wf_enclosing. Qed.
 Example ex_wf_mutual : wf_tenv te_mutual /\ Forall (wf_val te_mutual) vs_mutual.
 Proof. exact wf_mutual. Qed.
 Example ex_wf_same : wf_tenv te_same /\ Forall (wf_val te_same) vs_same.
 Proof. exact wf_same. Qed.
-(* the refuting schedules are not isolated; the sequential ones are *)
-Example ex_not_isolated : isolated te_enclosing (init vs_enclosing) sched_enclosing = false.
-Proof. vm_compute. reflexivity. Qed.
-Example ex_isolated : isolated te_enclosing (init vs_enclosing) (repeat 0 6 ++ repeat 1 10) = true.
-Proof. vm_compute. reflexivity. Qed.
-(* a warm state exists: run the two calls one after the other, then start again from its registry *)
-Example ex_warm :
-  exists st, run te_enclosing false (init vs_enclosing) (repeat 0 6 ++ repeat 1 10) = Some st /\
-             assigned_all (sh st) = true /\
-             lookup (complete (sh st)) 0 <> None /\ lookup (complete (sh st)) 1 <> None.
-Proof. eexists. split; [vm_compute; reflexivity|]. repeat split; vm_compute; discriminate. Qed.
-(* with the lock the refuting schedule cannot run: the reader is blocked at that point *)
-Example ex_locked_blocks : run te_enclosing true (init vs_enclosing) sched_enclosing = None.
-Proof. exact locked_blocks_enclosing. Qed.
+(* ownership: all primitives on the fast (view) path, reference mode, nested value *)
+Example ex_no_alias :
+  or_val (own_decode (all_fast false) 10 (TStruct [TString; TBytes; TIface; TSlice TString])
+            (WObj [WStr; WStr; WList [WStr; WBytes; WChar]; WList [WStr; WRefTo 0]]) [] 0) =
+  ONode [OLeaf Owned; OLeaf Owned; ONode [OLeaf Owned; OLeaf Owned; OLeaf Owned]; ONode [OLeaf Owned; OLeaf Owned]].
+Proof. exact own_example. Qed.
+
+(* ===================================================================================== *)
+(* PART II  HISTORICAL — the tree AS FOUND (before 717e8be, efd3d7f, e063fce, d41e43d).    *)
+(*          Statements about the OLD variant ([as_found], registry without the lock).      *)
+(*          Nothing below describes the current tree; a check that reproduces one of       *)
+(*          these behaviours has found a reverted repair.                                  *)
+(* ===================================================================================== *)
+Notation old_enc_fresh := (enc_fresh_equiv val crefer ccls cerr N crefer0 ccls0 as_found cser).
+Notation old_dec_fresh := (dec_fresh_equiv unit dval drefs unit cerr [] tt as_found cdes).
+
+(* [encoder-resetbuffer-keeps-off] (fixed 717e8be): the writer received a, then one stray byte of b *)
+Example old_resetbuffer_stray_byte :
+  snd (c_enc_run (c_new_encoder (Some 1%N))
+         [EEncode (VStr (bs "hello")); EResetBuffer; EEncode (VStr (bs "world!"))]) =
+  [OFlushed None (Some (1%N, bs "s5""hello""")); OUnit; OFlushed None (Some (1%N, bs """"))].
+Proof. exact resetbuffer_stray_byte. Qed.
+(* [pool-encoder-writer-survives-free] (fixed 717e8be) *)
+Example old_pool_writer_refuted : ~ old_enc_fresh (c_free_enc (fst (c_enc_run c_new_enc hist_writer))).
+Proof. exact pool_writer_refuted. Qed.
+Example old_pool_writer_leak :
+  snd (c_enc_run (c_free_enc (fst (c_enc_run c_new_enc hist_writer)))
+                 [ESimple true; EEncode (VStr (bs "secret-of-next-user")); EBytes]) =
+  [OUnit; OFlushed None (Some (1%N, bs "t-of-next-user""")); OBytes (bs "s19""secret-of-next-user""")].
+Proof. exact pool_writer_leak. Qed.
+(* [pool-encoder-off-survives-free] (fixed 717e8be) *)
+Example old_pool_off_refuted : ~ old_enc_fresh (c_free_enc (fst (c_enc_run c_new_enc hist_off))).
+Proof. exact pool_off_refuted. Qed.
+(* what did hold as found: the guarded statement (any variant), used by the library's own pooled uses *)
+Example old_reset_is_fresh_encoder_partial :
+  forall (V RT CT ER WR : Type) (rt0 : RT) (ct0 : CT) (vr : variant)
+         (ser : bool -> bool -> RT -> CT -> V -> ser_res RT CT ER) (s : enc RT CT ER WR),
+  e_off s = 0 /\ e_writer s = None ->
+  enc_fresh_equiv V RT CT ER WR rt0 ct0 vr ser (free_enc RT CT ER WR rt0 ct0 vr s).
+Proof. exact free_enc_fresh_partial. Qed.
+Example old_pool_encoder_sessions_partial :
+  forall (V RT CT ER WR : Type) (rt0 : RT) (ct0 : CT) (vr : variant)
+         (ser : bool -> bool -> RT -> CT -> V -> ser_res RT CT ER)
+         (l : list (esession V WR)) (p : epool RT CT ER WR),
+  Forall (fun e => e = new_enc RT CT ER WR rt0 ct0) p ->
+  Forall (fun ss => forallb lib_eop (es_ops ss) = true) l ->
+  Forall (fun e => e = new_enc RT CT ER WR rt0 ct0) (fst (esessions_run V RT CT ER WR rt0 ct0 vr ser p l)) /\
+  snd (esessions_run V RT CT ER WR rt0 ct0 vr ser p l) =
+    map (fun ss => snd (enc_run V RT CT ER WR rt0 ct0 vr ser (new_enc RT CT ER WR rt0 ct0) (es_ops ss))) l.
+Proof. exact lib_sessions_fresh. Qed.
+
+(* [pool-decoder-keeps-user-input-as-read-buffer] (fixed d41e43d) *)
+Example old_pool_decoder_refuted : ~ old_dec_fresh (c_free_dec (fst (c_dec_run c_new_dec dhist_buf))).
+Proof. exact pool_dec_buffer_refuted. Qed.
+Example old_pool_decoder_buffer_leak :
+  snd (c_dec_run (c_free_dec (fst (c_dec_run c_new_dec dhist_buf)))
+                 [DResetReader (bs "s19""secret-of-next-user"""); DDecode tt]) =
+  [ODUnit; ODecoded (DStr (bs "secret-of-next-user")) None true].
+Proof. exact pool_dec_buffer_leak. Qed.
+(* [decoder-resetreader-keeps-previous-input-as-buffer] (fixed d41e43d): zero-length slice: never returns *)
+Example old_pool_decoder_hang :
+  snd (c_dec_run (c_free_dec (fst (c_dec_run c_new_dec dhist_hang))) [DResetReader (bs "i7;"); DDecode tt]) =
+  [ODUnit; ODHang].
+Proof. exact pool_dec_hang. Qed.
+Example old_reset_is_fresh_decoder_partial :
+  forall (DT DV DR DC ER : Type) (dr0 : DR) (dc0 : DC) (vr : variant)
+         (des : bool -> dopts -> DR -> DC -> option ER -> list byte -> DT -> des_res DV DR DC ER)
+         (s : dec DR DC ER),
+  (d_from_reader s = true -> norm_buf (d_buf s) = BufNil) ->
+  dec_fresh_equiv DT DV DR DC ER dr0 dc0 vr des (free_dec DR DC ER dr0 dc0 vr s).
+Proof. exact free_dec_fresh_partial. Qed.
+Example old_pool_decoder_sessions_partial :
+  forall (DT DV DR DC ER : Type) (dr0 : DR) (dc0 : DC) (vr : variant)
+         (des : bool -> dopts -> DR -> DC -> option ER -> list byte -> DT -> des_res DV DR DC ER)
+         (l : list (dsession DT)) (p : dpool DR DC ER),
+  Forall (fun e => dec_same e (new_dec DR DC ER dr0 dc0)) p ->
+  Forall (fun ss => one_source (dss_ops ss) = true) l ->
+  Forall (fun e => dec_same e (new_dec DR DC ER dr0 dc0)) (fst (dsessions_run DT DV DR DC ER dr0 dc0 vr des p l)) /\
+  snd (dsessions_run DT DV DR DC ER dr0 dc0 vr des p l) =
+    map (fun ss => snd (dec_run DT DV DR DC ER dr0 dc0 vr des (new_dec DR DC ER dr0 dc0) (dss_ops ss))) l.
+Proof. exact sessions_fresh. Qed.
+
+(* [decoder-reset-in-simple-mode-keeps-refer] (fixed e063fce) *)
+Example old_decoder_simple_true_refuted :
+  snd (c_dec_run (fst (c_dec_run (c_new_decoder dinput1) dhist)) dnext) =
+    [ODUnit; ODUnit; ODecoded (DStr (bs "hello")) None false] /\
+  snd (c_dec_run (c_new_decoder []) dnext) = [ODUnit; ODUnit; ODecoded DPanic None false].
+Proof. exact dec_simple_true_refuted. Qed.
+
+(* [struct-encoder-published-before-fields] (fixed efd3d7f): the registry WITHOUT the lock.
+   shape 1: another goroutine builds an enclosing type while the coder is half built *)
+Example old_registry_refuted_enclosing :
+  exists st, run te_enclosing false (init vs_enclosing) sched_enclosing = Some st /\
+             finished st = true /\
+             map out (threads st) = [[Full 0]; [Full 1; Half 0; Half 0]] /\
+             map out (threads st) <> map seq_out vs_enclosing.
+Proof. exact refuted_enclosing. Qed.
+(* shape 2: mutually recursive types; the half-built coder is reached through a COMPLETE coder *)
+Example old_registry_refuted_mutual :
+  exists st, run te_mutual false (init vs_mutual) sched_mutual = Some st /\
+             finished st = true /\
+             map out (threads st) = [[Full 0; Full 1]; [Full 1; Half 0]] /\
+             map out (threads st) <> map seq_out vs_mutual.
+Proof. exact refuted_mutual. Qed.
+(* shape 3: the same self-recursive type built twice at once; the inner value loses its fields *)
+Example old_registry_refuted_same_type :
+  exists st, run te_same false (init vs_same) sched_same = Some st /\
+             finished st = true /\
+             map out (threads st) = [[Full 0; Half 0]; [Full 0; Full 0]] /\
+             map out (threads st) <> map seq_out vs_same.
+Proof. exact refuted_same. Qed.
+(* what did hold without the lock: warm types (every schedule), serialised first uses, one goroutine
+   with any recursion (why the early publication was safe THERE: the handler of a recursive field
+   holds only the pointer; fields is read by Write, after the goroutine left every build) *)
+Example old_registry_partial_warm :
+  forall te s0 vs sched st,
+  wf_tenv te -> shared_ok te s0 -> warm te s0 -> Forall (wf_val te) vs ->
+  run te false (mk_state s0 (map marshal vs)) sched = Some st ->
+  outs_ok vs (threads st) /\ (finished st = true -> map out (threads st) = map seq_out vs).
+Proof. exact warm_linearizable. Qed.
+Example old_registry_partial_isolated :
+  forall te vs sched st,
+  wf_tenv te -> Forall (wf_val te) vs -> isolated te (init vs) sched = true ->
+  run te false (init vs) sched = Some st ->
+  outs_ok vs (threads st) /\ (finished st = true -> map out (threads st) = map seq_out vs).
+Proof. exact isolated_linearizable. Qed.
+Example old_same_goroutine_recursion_safe :
+  forall te v sched st,
+  wf_tenv te -> wf_val te v -> run te false (init [v]) sched = Some st -> finished st = true ->
+  map out (threads st) = [seq_out v].
+Proof. exact sequential_recursion_safe. Qed.
